@@ -16,7 +16,10 @@ base = set(json.load(open("/root/.vp/BASELINE.json"))["stable_pass"])
 missing = sorted(base - passed)
 # sub-tests of TestExpandCircular_Spec2Expansion are named after the $refs that happen to remain,
 # which depends on map iteration order (also on the unmodified tree): tolerate those when the parent passed
-flaky = [m for m in missing if "/" in m and m.split("/")[0] in passed and m not in failed]
+def parent(m):
+    pkg, _, test = m.partition("::")
+    return pkg + "::" + test.split("/")[0]
+flaky = [m for m in missing if "/" in m.partition("::")[2] and parent(m) in passed and m not in failed]
 missing = [m for m in missing if m not in flaky]
 if flaky:
     print(f"  note: {len(flaky)} baseline sub-test name(s) did not occur in this run (order-dependent names, parent passed): {flaky[:3]}")
